@@ -11,7 +11,7 @@
       -> `OK` | `LEAK` | `PANIC` | `HANG`      (mode `expr` is answered by Ops/Parser.lean)
 -/
 import SoyVerif.Ops.Parser
-import SoyVerif.Model.FileParser
+import SoyVerif.Model.FileParserAst
 
 namespace SoyVerif.Ops.FileParser
 open SoyVerif SoyVerif.Ops SoyVerif.Model SoyVerif.Model.FileParser SExp
@@ -95,13 +95,17 @@ def encFile (name : Bytes) (body : List Node) : SExp := list ([atom "file", hex 
 
 def ferr (input : Bytes) : FErr → String
   | .err pos => s!"ERR {Parser.lineNumber input pos} {Parser.columnNumber input pos}"
-  | .errSub src pos => s!"ERR {Parser.lineNumber src pos} {Parser.columnNumber src pos}"
   | .panic => "PANIC"
   | .fuelOut => "HANG"
 
 def answerFile (name input : Bytes) (items : List Item) : String :=
   match parseFile Parser.parseFloatStub (exprFuel items) items with
-  | .ok body => "OK " ++ (encFile name body).toStr
+  | .ok body =>
+    -- trees with a static counterpart travel through `Node.toCmd?` and the shared encoder of
+    -- Model/AstWire.lean (which validates the conversion); the others through `encFile`
+    match toSoyFile? name input body with
+    | some f => "OK " ++ (AstWire.encFile f).toStr
+    | none => "OK " ++ (encFile name body).toStr
   | .error e => ferr input e
 
 def ops : List Op := [
